@@ -98,7 +98,8 @@ let verdict case impl =
   | ("E" :: _), [k0; evs; calls; texts; _stats] ->
     (* 1. the trace.  `ok` only through the acceptor (C20_accept_sound: accepted => property;
           C20_viol_rejected: a trace on which the property fails is never accepted).  On a rejection the
-          property predicate itself decides: prop_violb => `viol`, otherwise the acceptor was merely
+          property predicate itself decides: prop_violb (C20_viol_sound: = the declarative property
+          decl_viol; C20_viol_complete) => `viol`, otherwise the acceptor was merely
           stricter than the property (request before any call, after a failed or overlapped call, ...)
           => `diff`. *)
     let evl = if evs = "-" then [] else split_on ';' evs in
